@@ -207,11 +207,17 @@ func runHistory(t *testing.T, sub *vf.Sub, i int, fixed []string) {
 				startOff := gen.Pick(r, []time.Duration{-time.Minute, 0, time.Minute})
 				s := silh.NewSilence(fmt.Sprintf("peer-%d-%d", i, upd), genSets(r), now.Add(startOff), now.Add(startOff+gen.Pick(r, []time.Duration{time.Minute, 10 * time.Minute})), "peer")
 				s.UpdatedAt = timestamppb.New(now.Add(time.Duration(upd) * time.Microsecond))
+				if r.Intn(5) == 0 {
+					s.Comment = strings.Repeat("long comment ", 70) // a single update above the gossip threshold
+				}
 				pool = append(pool, remote{silh.Mesh(s, retention)})
 				ids = append(ids, s.Id)
 				note("peer-create", s.Id)
 			case op < 74 && len(pool) > 0: // deliver one or several pooled versions (duplicates stay in the pool)
 				k := 1 + r.Intn(2)
+				if r.Intn(4) == 0 {
+					k = 6 + r.Intn(8) // a message above the 700-byte gossip threshold (as a full-state exchange is)
+				}
 				var batch []*pb.MeshSilence
 				newer := false
 				for j := 0; j < k; j++ {
@@ -315,7 +321,7 @@ func doFixed(st *silh.Store, what string, base time.Time, ids *[]string, upd *in
 
 func TestSilencerDifferential(t *testing.T) {
 	run := vf.Cur()
-	sub := run.Sub("silencer-differential", "history of 20-60 steps over a real silence store + silencer in virtual time: create, in-place/rewriting edit, expire, peer versions of known ids and peer-created silences delivered late/duplicated/batched through Merge, GC, alert-GC cache eviction, restart from snapshot, clock advances across start/end/retention; after every step Silencer.Mutes and the marker's silencedBy are compared, for a random half of 3-6 label sets, with the brute-force evaluation of all silences an unfiltered Query returns; index invariants are walked under the store's lock; non-trivial = some verdict was 'muted' and >10 verdicts compared; distinct by (seed, steps)", 100)
+	sub := run.Sub("silencer-differential", "history of 20-60 steps over a real silence store + silencer in virtual time: create, in-place/rewriting edit, expire, peer versions of known ids and peer-created silences delivered late/duplicated/batched through Merge (single updates, small batches, and messages above the 700-byte gossip threshold), GC, alert-GC cache eviction, restart from snapshot, clock advances across start/end/retention; after every step Silencer.Mutes and the marker's silencedBy are compared, for a random half of 3-6 label sets, with the brute-force evaluation of all silences an unfiltered Query returns; index invariants are walked under the store's lock; non-trivial = some verdict was 'muted' and >10 verdicts compared; distinct by (seed, steps)", 100)
 	// regression case #1: the revived-silence history
 	runHistory(t, sub, 0, []string{"create-A-5m", "noop", "sleep-6m", "noop", "merge-peer-extension", "noop"})
 	n := run.N(1500, 150000)
